@@ -16,7 +16,6 @@ import (
 	"google.golang.org/grpc/metadata"
 	"google.golang.org/grpc/status"
 	"google.golang.org/protobuf/encoding/protojson"
-	"google.golang.org/protobuf/proto"
 
 	"verif/internal/vschema"
 )
@@ -254,5 +253,3 @@ func runHTTP(ctx context.Context, hc *http.Client, base string, s *Script, callI
 	}
 	return t
 }
-
-var _ = proto.Equal
